@@ -714,6 +714,9 @@ func streamDeb(g *core.G) {
 		m.CtlCut, m.DataCut = 0, 0
 		emitDebModel(g, m)
 	}
+	for _, lines := range []int{2, 45, 70} { // 0.2, 4.2 and 6.6 MiB of control file
+		g.Emit("law-debbig", strconv.Itoa(lines))
+	}
 	// all 6x6 compression combinations first
 	for _, ce := range compExts {
 		for _, de := range compExts {
@@ -854,7 +857,7 @@ func streamDebfuzz(g *core.G) {
 			}
 			d := ms[r.Intn(len(ms))]
 			if r.Bool() {
-				d.Name = r.Pick([]string{"control.tar.zz", "data.tar.zz", "control.x", "data.", "control.tar.gz", "data.tar", "control.new.tar", "data.new.tar", "control.sig", "data.list", "control.old.tar.gz"})
+				d.Name = r.Pick([]string{"control.tar.zz", "data.tar.zz", "control.x", "data.", "control.tar.gz", "data.tar", "control.new.tar", "data.new.tar", "control.sig", "data.list", "control.old.tar.gz", "control.x/y.tar", "data.a/b.tar"})
 			}
 			if r.Chance(1, 5) {
 				// a member name built around a word the deb package itself spells out
@@ -1069,7 +1072,7 @@ func streamDebsig(g *core.G) {
 		}
 		// decoy control.* / data.* members before / after the real ones
 		for rep := g.N(3, 8); rep > 0; rep-- {
-			decoy := arMember{Name: r.Pick([]string{"control.tar.gz2", "control.tar", "data.tar.gz2", "data.tar.zz", "control.tar.gz", "data.tar", "control.new.tar", "data.new.tar", "control.old.tar", "data.bak.tar"}), TS: "0", UID: "0", GID: "0", Mode: "100644"}
+			decoy := arMember{Name: r.Pick([]string{"control.tar.gz2", "control.tar", "data.tar.gz2", "data.tar.zz", "control.tar.gz", "data.tar", "control.new.tar", "data.new.tar", "control.old.tar", "data.bak.tar", "control.x/y.tar", "data.a/b.tar", "control./.tar", "data.x/.tar.gz"}), TS: "0", UID: "0", GID: "0", Mode: "100644"}
 			dm := genDebModel(r)
 			if strings.HasPrefix(decoy.Name, "control") {
 				decoy.Data = compress("", buildTar(dm.CtlFiles))
@@ -1257,6 +1260,33 @@ func init() {
 		}
 		return "ok"
 	}
+	// law (C14): a control file of several MiB (a long Description) comes back whole.  args: number of
+	// 96 KiB lines
+	debImpl["law-debbig"] = func(a []string) string {
+		lines, _ := strconv.Atoi(a[0])
+		var ctl strings.Builder
+		ctl.WriteString("Package: big\nVersion: 1.0\nArchitecture: all\nMaintainer: A <a@b>\nDescription: a package with a long description\n")
+		line := " " + strings.Repeat("lorem ipsum dolor ", 96*1024/18) + "sit amet\n"
+		for i := 0; i < lines; i++ {
+			ctl.WriteString(line)
+		}
+		ctl.WriteString("Homepage: https://example.org/the-last-field\n")
+		ms := []arMember{{Name: "debian-binary", TS: "0", UID: "0", GID: "0", Mode: "100644", Data: []byte("2.0\n")},
+			{Name: "control.tar.gz", TS: "0", UID: "0", GID: "0", Mode: "100644", Data: compress(".gz", buildTar([]tarFile{{Name: "./control", Body: ctl.String()}}))},
+			{Name: "data.tar", TS: "0", UID: "0", GID: "0", Mode: "100644", Data: buildTar([]tarFile{{Name: "./", Dir: true}})}}
+		d, err := deb.Load(bytes.NewReader(buildAr(ms)), "big.deb")
+		if err != nil {
+			return fmt.Sprintf("FAIL a package whose control file has %d bytes is rejected: %v", ctl.Len(), err)
+		}
+		defer d.Close()
+		if d.Control.Homepage != "https://example.org/the-last-field" {
+			return fmt.Sprintf("FAIL the last field of a %d-byte control file is lost (Homepage %q)", ctl.Len(), d.Control.Homepage)
+		}
+		if want := len("a package with a long description\n") + lines*(len(line)-1); len(d.Control.Description) < want-2 || len(d.Control.Description) > want+2 {
+			return fmt.Sprintf("FAIL the description of a %d-byte control file has %d bytes, written %d", ctl.Len(), len(d.Control.Description), want)
+		}
+		return "ok"
+	}
 	// law (C14): two packages open at the same time do not disturb each other's data stream
 	debImpl["law-debtwo"] = func(a []string) string {
 		da, err := deb.Load(bytes.NewReader([]byte(core.MustUnHex(a[0]))), "a.deb")
@@ -1282,6 +1312,8 @@ func init() {
 
 func debReadable(op string, a []string) string {
 	switch op {
+	case "law-debbig":
+		return "law-debbig: a control file with " + a[0] + " description lines of 96 KiB"
 	case "deb":
 		return fmt.Sprintf("deb.Load(%d bytes: %q…)", len(debBytes(a)), clipStr(string(debBytes(a)), 120))
 	case "law-deb", "law-debsafe", "debsig", "law-debsig", "law-deblife", "law-debtwo", "law-debsig-extra":
